@@ -244,7 +244,7 @@ def body(ctx):
                 ks = ks[::2] if cap == 7 else ks
             batch = []
             for k in ks:
-                for kind in ('timeout', 'blocking') if ctx.quick else ('timeout', 'reset', 'blocking', 'oserr'):
+                for kind in ('timeout', 'blocking', 'eintr') if ctx.quick else ('timeout', 'reset', 'blocking', 'oserr', 'eintr'):
                     rr = scen.run(dict(spec0, connect_kw=dict(read_timeout_s=1.0)), mode, wcap=lambda n, c=cap: min(n, c), fault=transports.Fault(at={k: kind}))
                     batch.append((mode, spec0, ['always %d' % cap, 'fault %s at call %d' % (kind, k)], rr))
             nruns += len(batch)
